@@ -40,14 +40,9 @@ theorem C10_invariant {s : Site} (h : Reachable Defects.none s) : SiteInv s ∧ 
         · cases hm
         · cases hm; simp [ih.2]
   | @restart s s' _ hr ih =>
-    obtain ⟨s2, h2, hi, _, _⟩ := restart_none ih.1 ih.2
+    obtain ⟨s2, h2, hi, _, hd, _⟩ := restart_none ih.1 ih.2
     rw [h2] at hr; cases hr
-    refine ⟨hi, ?_⟩
-    unfold Site.restart at h2
-    simp only [ih.2, Bool.false_eq_true, if_false] at h2
-    split at h2
-    · cases h2
-    · cases h2; rfl
+    exact ⟨hi, hd⟩
   | @importRoom s s' cand _ hm ih =>
     refine ⟨siteInv_import ih.1 hm, ?_⟩
     unfold Site.importRoom at hm
@@ -83,25 +78,26 @@ theorem C10_restart {s : Site} (h : Reachable Defects.none s) :
         ∃ r' rr, s'.getMem rid = some r' ∧ s.getStored rid = some rr ∧
           (TiesHarmless rr → ∀ d, r.SameAt r' d) := by
   obtain ⟨hi, hd⟩ := C10_invariant h
-  obtain ⟨s', hr, _, _, hrooms⟩ := restart_none hi hd
+  obtain ⟨s', hr, _, _, _, hrooms⟩ := restart_none hi hd
   refine ⟨s', hr, ?_⟩
   intro rid r hm
   obtain ⟨r', rr, hm', hs, ha, hw, ha', hw'⟩ := hrooms rid r hm
   refine ⟨r', rr, hm', hs, ?_⟩
   intro ht d
-  exact sameAt_of_agrees ha.agrees ha'.agrees (exportRoom_sameRows _ rr).symm hw hw' ht d
+  exact sameAt_of_agrees ha.agrees ha'.agrees (SameRows.refl rr) hw hw' ht d
 
-/-- **C10 (import by an instance that had never seen the room).** If the export of a reachable instance is
-    accepted by an instance that does not hold the room, the room installed there means the same as the
-    room of the exporter. -/
-theorem C10_import_unknown {src dst dst' : Site} (hsrc : Reachable Defects.none src) {rid : Id} {r : Room}
-    {cand : RoomRow} (hm : src.getMem rid = some r) (he : src.export Defects.none rid = .ok cand)
-    (hnone : dst.getMem rid = none) (hi : dst.importRoom Defects.none cand = .ok dst') :
+/-- **C10 (import by an instance that had never seen the room).** If the export of an instance satisfying
+    the invariant (every reachable instance does, `C10_invariant`) is accepted by an instance that does not
+    hold the room, the room installed there means the same as the room of the exporter. Holds for the code
+    as it is as well (`df` arbitrary): the defects make imports FAIL, they do not make them mean something else. -/
+theorem C10_import_unknown {df : Defects} {src dst dst' : Site} (hinv : SiteInv src) (hd : src.dead = false)
+    {rid : Id} {r : Room} {cand : RoomRow} (hm : src.getMem rid = some r)
+    (he : src.export df rid = .ok cand) (hnone : dst.getMem rid = none)
+    (hi : dst.importRoom df cand = .ok dst') :
     ∃ r' rr, dst'.getMem rid = some r' ∧ src.getStored rid = some rr ∧
       (TiesHarmless rr → ∀ d, r.SameAt r' d) := by
-  obtain ⟨hinv, hd⟩ := C10_invariant hsrc
   obtain ⟨rr, hs, ha, hw⟩ := hinv.agree _ _ hm
-  have hc : cand = exportRoom Defects.none rr := by
+  have hc : cand = exportRoom df rr := by
     unfold Site.export at he
     simp only [hd, Bool.false_eq_true, if_false, hs] at he
     cases he; rfl
@@ -123,10 +119,15 @@ theorem C10_import_unknown {src dst dst' : Site} (hsrc : Reachable Defects.none 
         · cases hp
           obtain ⟨ha', hw', hid'⟩ := parseRoom_agreesOrd (liftErr_ok hparse)
           refine ⟨room, rr, ?_, hs, ?_⟩
-          · rw [getMem_setMem]; simp [hid', hcid]
+          · rw [getMem_setMem]
+            have : room.id = rid := hid'.trans hcid
+            simp [this]
           · intro ht d
             subst hc
-            exact sameAt_of_agrees ha.agrees ha'.agrees (exportRoom_sameRows _ rr).symm hw hw' ht d
+            have hsr : SameRows rr (groupsByUid (exportRoom df rr)) :=
+              (exportRoom_sameRows df rr).symm.trans
+                (sameRows_of_groups_perm rfl (groupsByUid_perm _)).symm
+            exact sameAt_of_agrees ha.agrees ha'.agrees hsr hw hw' ht d
         · cases hp
 
 /-- **C10 (import, in general).** Whatever an instance accepts — a new room, or a newer version of a room
@@ -163,11 +164,6 @@ def imported (df : Defects) (src dst : Site) : Except MErr Site :=
   match src.export df 0 with
   | .ok c => dst.importRoom df c
   | .error e => .error e
-
-theorem ok_of_toBool {ε α : Type} {x : Except ε α} (h : x.toBool = true) : ∃ a, x = .ok a := by
-  cases x with
-  | ok a => exact ⟨a, rfl⟩
-  | error e => cases h
 
 -- a reachable instance with a two-date history; user 4 can write at 2, not at 3
 example : Reachable Defects.none site2 := by
@@ -236,6 +232,57 @@ theorem C10_breaks_newGroupUsersRule :
     (imported Defects.asImplemented site4 Site.empty).toBool = true ∧
     (imported { Defects.asImplemented with newGroupUsersNeedUserAdmin := false } site4
       (peer3 Defects.asImplemented)).toBool = true := by decide
+
+/-- **C10_partial (the code as it is, under an explicit guard).** An instance satisfying the invariant
+    (it does after any sequence of local room mutations and imports: `siteInv_mutate`, `siteInv_import`,
+    which hold for the code as it is) whose stored rooms all satisfy `ReloadGuard` — one date per key in
+    every list, no right with all-rows but not own-rows, at least one admin entry and one group — restarts
+    successfully, satisfies the invariant again, and every room means the same afterwards.
+    What is missing with respect to the full statement: histories with a second date for some key (#4),
+    un-normalised rights (#5), rooms without group or admin, and — for imports on top of an earlier version —
+    new groups whose users were added by a plain admin (#33). -/
+theorem C10_partial {s : Site} (hi : SiteInv s) (hd : s.dead = false)
+    (hg : ∀ rr ∈ s.stored, ReloadGuard rr) :
+    ∃ s', s.restart Defects.asImplemented = .ok s' ∧ SiteInv s' ∧ s'.dead = false ∧
+      ∀ rid r, s.getMem rid = some r →
+        ∃ r' rr, s'.getMem rid = some r' ∧ s.getStored rid = some rr ∧
+          (TiesHarmless rr → ∀ d, r.SameAt r' d) := by
+  obtain ⟨s', hr, hi', _, hd', hrooms⟩ := restart_ok (df := Defects.asImplemented) hi hd
+    (fun rr hrr => loads_guarded (gidsNodup_of_inv hi rr hrr) (hg rr hrr))
+  refine ⟨s', hr, hi', hd', ?_⟩
+  intro rid r hm
+  obtain ⟨r', rr, hm', hs, ha, hw, ha', hw'⟩ := hrooms rid r hm
+  exact ⟨r', rr, hm', hs, fun ht d => sameAt_of_agrees ha.agrees ha'.agrees (SameRows.refl rr) hw hw' ht d⟩
+
+/-- creation with two admins, a group with two rights (none of the all-without-own shape) and two users -/
+def m5 : MutSpec :=
+  { rid := 0, isNew := true, date := 1, admins := [(1, true), (2, false)],
+    groups := [{ gid := 0, isNew := true, rights := [(1, true, true), (0, true, false)],
+                 users := [(4, true), (5, false)], userAdmins := [(1, true)] }] }
+def site5 : Site := match Site.empty.mutate 1 0 m5 with | .ok s => s | .error _ => Site.empty
+
+/-- what `site5` stores -/
+def rows5 : RoomRow :=
+  { rid := 0, mdate := 1, author := 1,
+    admins := [⟨0, 1, 1, true, 1⟩, ⟨1, 2, 1, false, 1⟩],
+    groups := [{ gid := 0, mdate := 1, author := 1,
+                 rights := [⟨2, 1, 1, true, true, 1⟩, ⟨3, 0, 1, true, false, 1⟩],
+                 users := [⟨4, 4, 1, true, 1⟩, ⟨5, 5, 1, false, 1⟩],
+                 userAdmins := [⟨6, 1, 1, true, 1⟩] }] }
+
+-- the guard is satisfiable by a non-trivial stored room, and then the code as it is restarts and agrees
+example : site5.stored = [rows5] ∧ (∀ rr ∈ site5.stored, ReloadGuard rr) := by
+  have h : site5.stored = [rows5] := by decide
+  refine ⟨h, ?_⟩
+  intro rr hrr
+  rw [h] at hrr
+  have : rr = rows5 := by simpa using hrr
+  subst this
+  constructor <;> decide
+
+example : canAt site5 4 1 1 .mutateAll = true ∧ canAt (restarted Defects.asImplemented site5) 4 1 1 .mutateAll = true ∧
+    canAt site5 5 1 1 .mutateSelf = false ∧ canAt (restarted Defects.asImplemented site5) 5 1 1 .mutateSelf = false := by
+  decide
 
 /-- two stored orders of the same two admin entries of key 2 with the same date and different flags -/
 def tieA : RoomRow :=
